@@ -134,7 +134,7 @@ func famTry() {
 							un = append(un, v)
 						}
 					}
-					tr := M{"e": ei + 1, "av": av}
+					tr := M{"e": ei + 1, "av": av, "lib": ""}
 					c.log.reset()
 					f := &Fetcher{Vals: env, Avail: avail, Log: c.log}
 					tr["res"] = safely(func() M {
@@ -195,6 +195,12 @@ func famTry() {
 					tries = append(tries, tr)
 				}
 			}
+			// the same through the library's own contexts (NewCtxFromVars): a slice context when the
+			// registered keys fit 0..255 (every registered variable is then available), else a map
+			// context (available = present in the value map)
+			if o.Events == "" && c.expr != nil && len(envs) > 0 {
+				tries = append(tries, libTries(r, src, o, vnames, envs, prop)...)
+			}
 			rec["envs"], rec["tries"] = er, tries
 			names := []interface{}{}
 			for _, v := range vnames {
@@ -204,6 +210,103 @@ func famTry() {
 			emit(rec)
 		}
 	}
+}
+
+func libTries(r *rand.Rand, src string, o ConfOpts, vnames []string, envs []Env, prop string) []interface{} {
+	var out []interface{}
+	nv := len(vnames)
+	for _, lay := range []struct {
+		kind string
+		base int
+	}{{"slice", 0}, {"map", 300}} {
+		l := &Log{Phase: "compile"}
+		cc, dir := newConf(o, l)
+		for i, v := range varNames {
+			cc.VariableKeyMap[v] = eval.VariableKey(lay.base + i)
+		}
+		var e *eval.Expr
+		var err error
+		if p := safely(func() M { e, err = eval.Compile(cc, dir+src); return nil }); p != nil || err != nil || e == nil {
+			continue
+		}
+		l.Phase = "eval"
+		ne := 2
+		if len(envs) < ne {
+			ne = len(envs)
+		}
+		for ei := 0; ei < ne; ei++ {
+			env := envs[ei]
+			splits := []int{1<<uint(nv) - 1}
+			if lay.kind == "map" {
+				if nv <= 2 {
+					for sp := 0; sp < 1<<uint(nv)-1; sp++ {
+						splits = append(splits, sp)
+					}
+				} else {
+					splits = append(splits, 0, r.Intn(1<<uint(nv)), r.Intn(1<<uint(nv)))
+				}
+			}
+			for _, sp := range splits {
+				vals := map[string]interface{}{}
+				av := []interface{}{}
+				var un []string
+				for j, v := range vnames {
+					if sp&(1<<uint(j)) != 0 {
+						vals[v] = env[v]
+						av = append(av, v)
+					} else {
+						un = append(un, v)
+					}
+				}
+				tr := M{"e": ei + 1, "av": av, "lib": lay.kind, "eff": []interface{}{}}
+				tr["res"] = safely(func() M {
+					ctx := eval.NewCtxFromVars(cc, vals)
+					if _, isSlice := ctx.VariableFetcher.(eval.SliceVarFetcher); isSlice != (lay.kind == "slice") {
+						return M{"t": "p", "v": "fetcher-kind", "msg": "NewCtxFromVars chose the other fetcher"}
+					}
+					v, err := e.TryEval(ctx)
+					return outcome(v, err)
+				})
+				tr["bres"] = safely(func() M {
+					v, err := e.TryEvalBool(eval.NewCtxFromVars(cc, vals))
+					if err != nil {
+						return te(err)
+					}
+					return tv(v)
+				})
+				if prop == "C05" {
+					un = nil
+				}
+				total := 1
+				for _, u := range un {
+					total *= len(candVals[u])
+				}
+				comps := []Env{env}
+				if total <= 8 {
+					comps = allCompletions(env, un)
+				}
+				evs := []interface{}{}
+				for _, ce := range comps {
+					full := map[string]interface{}{}
+					for _, v := range vnames {
+						full[v] = ce[v]
+					}
+					res := safely(func() M {
+						v, err := e.Eval(eval.NewCtxFromVars(cc, full))
+						return outcome(v, err)
+					})
+					over := M{}
+					for _, u := range un {
+						over[u] = tv(ce[u])
+					}
+					evs = append(evs, M{"c": over, "res": res})
+				}
+				tr["evals"] = evs
+				out = append(out, tr)
+			}
+		}
+	}
+	return out
 }
 
 func allCompletions(env Env, un []string) []Env {
